@@ -259,6 +259,13 @@ def make_strategy(script: dict):
                     continue
                 seen.add(pp)
                 out.append((qq, pp))
+            if s.get('tie_entry') and out and style != 'market' and abs(out[-1][1] / price - 1) > 0.0005:
+                # ... unless asked for: the last row is split into two orders at ONE price (the second one fills exactly at the
+                # open of what is left of the minute after the first)
+                qq, pp = out[-1]
+                halves = self._split(qq, 2)
+                if len(halves) == 2:
+                    out[-1:] = [(halves[0], pp), (halves[1], pp)]
             return out
 
         def _exit_rows(self, side, ref, qty, ref_lo=None, ref_hi=None):
@@ -384,8 +391,10 @@ def make_strategy(script: dict):
         def on_increased_position(self, order):
             prev = self._enter_hook('on_increased_position')
             try:
-                if self.s.get('on_increased') == 'retarget':
-                    sl, tp = self._exit_rows(self._side(), self.position.entry_price, abs(self.position.qty))
+                if self.s.get('on_increased') in ('retarget', 'retarget_price'):
+                    # (retarget_price: the new exits are anchored at the price the callback sees, not at the average entry)
+                    ref = self.position.entry_price if self.s['on_increased'] == 'retarget' else float(self.price)
+                    sl, tp = self._exit_rows(self._side(), ref, abs(self.position.qty))
                     if sl:
                         self.stop_loss = sl
                     if tp:
